@@ -168,11 +168,11 @@ example : Reach [10, 20] (· + 1) 0 (init 1)
 
 /-! ### The driver's observable -/
 
-/-- what the driver prints (`expectedObs`) is the canonical form of `Map(f, list)` and the worker count of the code's
-    rule, which is the statement's bound; the two sides of the correspondence oracle agree on the unchanged rule -/
-theorem C16_expected_obs (c : Case) :
-    expectedObs c = obsLine c (inputList c) (if c.hold then toString (specWorkers c.pool c.n) else "ok") := by
-  unfold expectedObs; rw [C16_workers]
+/-- what the driver prints (`expectedObs`) is the canonical form of `Map(f, list)` and `maxc=ok`: the worker count of the
+    code's rule never exceeds the statement's bound (`C16_workers`), so the model predicts that the concurrency gauge stays
+    within it — on every case line -/
+theorem C16_expected_obs (c : Case) : expectedObs c = obsLine c (inputList c) "ok" := by
+  unfold expectedObs; rw [C16_workers]; simp
 
 /-- The list the driver prints is what EVERY terminal state of the goroutine system yields, for every case line (int
     elements; the string cases use the same numbers with a fixed-width rendering): in ordered mode the assembled output
